@@ -35,6 +35,8 @@ def decl_specs(tier):
         specs.append({'P': ir.PKT('Top', [('pre', ir.I(1)), ('mid', ir.R(K)), ('post', ir.I(1))]), 'tag': 'depth2-' + c})
     for c in ('i1', 'i3', 'dn', 'm0', 'b35', 'sn', 'su', 'sr', 'o1', 'r1', 'rs', 'sdn'):
         specs.append({'names': [c], 'wrapper': 'd'})
+    for o in ({}, {'generate_for_pack': False, 'generate_for_unpack': False}, {'generate_for_unpack': False}, {'vectorize': False}):
+        specs.append({'special': 'check_recursive', 'opts': o, 'names': []})
     specs.extend(alphabet.families())
     specs.extend(alphabet.boundary_specs())
     specs.extend(alphabet.structure_specs())
@@ -231,6 +233,73 @@ def check_nonbytes(dc, st):
                 return
 
 
+def recursive_src(opts):
+    from mc import mk
+    return (mk.class_src('End', ['mark = Int(1)']) + '\n' +
+            mk.class_src('Node', ['value = Int(1)', 'has_next = Int(1)', 'next = Ref(lambda **k: Node(), default=End()).when(has_next)'], opts or None))
+
+
+def check_recursive(st, spec):
+    """nesting ladder with ONE class: a linked list of Node packets 1..9 deep; a failure in the node at depth d (truncated input /
+    a value that does not fit) must carry the failing field plus one ('next', 'Node') entry per enclosing reference"""
+    from bisturi.packet import PacketError
+    from mc import mk
+    opts = spec.get('opts') or {}
+    src = recursive_src(opts)
+    with mk.World() as w:
+        m = w.module(src)
+        st.inc('programs')
+        for d in range(1, 10):
+            for cut in (b'', b'\x05'):
+                raw = b'\x05\x01' * (d - 1) + cut
+                st.inc('evaluations')
+                st.inc('rejected')
+                try:
+                    m.Node.unpack(raw)
+                    got = 'accepted'
+                except PacketError as e:
+                    try:
+                        txt = str(e)
+                    except Exception as e2:
+                        txt = e2
+                    got = (e.was_error_found_in_unpacking_phase, [tuple(x) for x in e.fields_stack], isinstance(txt, str))
+                except Exception as e:
+                    got = repr(e)
+                ok = (isinstance(got, tuple) and got[0] is True and got[2] and len(got[1]) == d and
+                      got[1][0][2] == 'Node' and
+                      ((got[1][0][0] == 2 * (d - 1) and 'value' in got[1][0][1]) or (cut and got[1][0] == (2 * (d - 1) + 1, 'has_next', 'Node'))) and
+                      all(got[1][i] == (2 * (d - i), 'next', 'Node') for i in range(1, d)))
+                st.add('states', ('recursive', repr(opts), d, len(cut)))
+                if not ok:
+                    st.violate('recursive nesting: unpack stack', 'Node.unpack(%r) (a list of %d nodes, the last one cut): %r; expected the failing field of Node at %d and then %s | %s' % (
+                        raw, d, got, 2 * (d - 1), [(2 * (d - i), 'next', 'Node') for i in range(1, d)], src.replace('\n', '; ')),
+                        {'spec': spec}, mk.HEADER + src + 'Node.unpack(%r)' % raw)
+                    return
+            # serializing: the node at depth d holds a value that does not fit
+            head = None
+            for v in reversed([1] * (d - 1) + [300]):
+                head = m.Node(value=v, has_next=int(head is not None), next=head)
+            st.inc('evaluations')
+            st.inc('pack_failures')
+            try:
+                head.pack()
+                got = 'packed'
+            except PacketError as e:
+                try:
+                    txt = str(e)
+                except Exception as e2:
+                    txt = e2
+                got = (e.was_error_found_in_unpacking_phase, [tuple(x) for x in e.fields_stack], isinstance(txt, str))
+            except Exception as e:
+                got = repr(e)
+            ok = (isinstance(got, tuple) and got[0] is False and got[2] and len(got[1]) == d and got[1][0][2] == 'Node' and 'value' in got[1][0][1] and
+                  got[1][0][0] == 2 * (d - 1) and all(x[1:] == ('next', 'Node') for x in got[1][1:]))
+            if not ok:
+                st.violate('recursive nesting: pack stack', 'a list of %d nodes whose last value is 300: pack() -> %r; expected the failing field of Node at %d and then %d entries (.., next, Node) | %s' % (
+                    d, got, 2 * (d - 1), d - 1, src.replace('\n', '; ')), {'spec': spec}, mk.HEADER + src)
+                return
+
+
 def check_decl(dc, st, tier, only=None):
     if only is not None:
         if 'raw' in only:
@@ -269,4 +338,9 @@ def run(tier):
 
 
 def replay(case):
+    if case.get('spec', {}).get('special') == 'check_recursive':
+        from mc.common import Stats
+        st = Stats()
+        check_recursive(st, case['spec'])
+        return st.violations
     return ea.replay_decl(sys.modules[__name__], case)
